@@ -198,6 +198,17 @@ func (a *Activation) enterLoop(st *State, li *loopInfo) {
 		}
 	} else {
 		for _, s := range heaps {
+			if s == "$ghosts" {
+				var gk []string
+				for k := range st.ghosts {
+					gk = append(gk, k)
+				}
+				sort.Strings(gk)
+				for _, k := range gk {
+					st.ghosts[k] = g.fresh("ghl", st.ghosts[k].Sort)
+				}
+				continue
+			}
 			g.havocHeap(st, s)
 		}
 	}
@@ -458,7 +469,15 @@ func (a *Activation) modCall(cc *ssa.CallCommon, cm map[cellKey]bool, hm map[str
 		spec = g.eng.specs.funcs[funcKey(callee)]
 	}
 	if spec != nil && !spec.Inline && (len(spec.Ensures) > 0 || len(spec.Requires) > 0 || spec.HasMod || len(spec.Ghost) > 0) {
-		if spec.HasMod && !spec.ModAll && len(spec.Ghost) == 0 {
+		if spec.HasMod && !spec.ModAll {
+			if !spec.Tags["ghost-pure"] {
+				hm["$ghosts"] = true // ghost variables may change
+			}
+			for _, cl := range spec.Ensures {
+				if strings.Contains(cl.Text, "held(") {
+					hm["Held"] = true
+				}
+			}
 			if len(spec.Modifies) == 0 {
 				return
 			}
@@ -826,6 +845,13 @@ func (a *Activation) applyContract(st, pre *State, spec *FuncSpec, pkg *packages
 			}
 		}
 	}
+	// a contract that talks about lock ownership changes the ghost held-flags
+	for _, cl := range spec.Ensures {
+		if strings.Contains(cl.Text, "held(") {
+			g.havocHeap(st, "Held")
+			break
+		}
+	}
 	nc := g.fresh("ctr", "Int")
 	g.assertLine(app(SBool, ">=", nc, st.ctr), nc)
 	st.ctr = nc
@@ -842,7 +868,19 @@ func (a *Activation) applyContract(st, pre *State, spec *FuncSpec, pkg *packages
 	} else if len(rvals) > 1 {
 		res.Tuple = rvals
 	}
-	// ghost effects
+	// ghost effects: a contract with explicit `ghost v = e` clauses changes exactly those
+	// ghost variables; one tagged ghost-pure changes none; any other callee may change
+	// every ghost variable (its ensures clauses relate old and new values)
+	if len(spec.Ghost) == 0 && !spec.Tags["ghost-pure"] {
+		var gk []string
+		for k := range st.ghosts {
+			gk = append(gk, k)
+		}
+		sort.Strings(gk)
+		for _, k := range gk {
+			st.ghosts[k] = g.fresh("ghc", st.ghosts[k].Sort)
+		}
+	}
 	for _, gu := range spec.Ghost {
 		gv := g.eng.specs.findGhost(pkg.PkgPath, gu.Var)
 		if gv == nil {
